@@ -928,7 +928,7 @@ static void process_failure(const Opts &o, const Target &t, Stats &st, Failure f
     {
         double shr_to = f.kind == "hang" ? std::max(2.0, 20.0 * st.slowest_us / 1e6)
                                          : hang_limit;
-        Shrinker sh{o, t, f.sig, shr_to, f.kind == "hang" ? 150 : o.shrink_budget};
+        Shrinker sh{o, t, f.sig, shr_to, f.kind == "hang" ? 40 : o.shrink_budget};
         f.bytes = sh.shrink(f.bytes);
         f.shrink_runs = sh.runs;
         Outcome fin = run_isolated(o, t, false, 0, f.bytes,
@@ -1066,6 +1066,9 @@ static void run_campaign(const Opts &o, const Target &t, Stats &st, bool is_enum
             pending.clear();
             if (st.failure_events >= 40 || (int)st.failures.size() >= o.max_fail_sigs)
                 abort_campaign = true;
+            for (auto &f : st.failures)
+                if (f.kind == "hang" && f.confirmed)
+                    abort_campaign = true;
             w.next_k = resume_from;
             if (abort_campaign || resume_from >= total)
                 w.finished = true;
